@@ -46,7 +46,7 @@ REQUIRED = {
     "C01": {"object-used-for-100000-iterations": 1, "clock-moves-between-engage-and-execute": 1000, "verbose-logging-on": 500, "disengage-stop": 50, "must_finish-continue": 50, "default-fallback": 50, "now-chain": 50,
             "op-engage-force": 20, "op-engage-initial": 20, "expiry-hop": 50, "in-state-done": 20,
             "iteration-with-100-or-more-nested-transitions": 3},
-    "C02": {"object-used-for-100000-iterations": 1, "clock-moves-between-engage-and-execute": 1000, "verbose-logging-on": 500, "expiry-hop": 100, "expiry-finish-stop": 20, "cycle-restart": 100, "exact-landing-strict": 50,
+    "C02": {"machine-of-1100-chained-states": 1, "object-used-for-100000-iterations": 1, "clock-moves-between-engage-and-execute": 1000, "verbose-logging-on": 500, "expiry-hop": 100, "expiry-finish-stop": 20, "cycle-restart": 100, "exact-landing-strict": 50,
             "tie-forked": 20, "long-pause-expiry": 20, "op-nt-write": 20, "three-consecutive-cycles": 10,
             "preexisting-duration": 10},
     "C03": {"object-used-for-100000-iterations": 1, "clock-moves-between-engage-and-execute": 1000, "verbose-logging-on": 500, "entry-by-engage": 50, "entry-by-next": 50, "entry-by-expiry": 50, "entry-by-restart": 20,
@@ -85,6 +85,11 @@ def gen_case(rng: random.Random, pid: str, uid: str) -> dict:
     auto = pid == "C13"
     n = rng.choice([1, 2, 2, 3, 3, 3, 4, 4, 5, 6]) if rng.random() > 0.004 else rng.choice([34, 40])      # (rarely: a big machine)
     names = NAMES[:n]
+    long_chain = rng.random() < 0.0015
+    if long_chain:
+        # a scripted sequence: 1100 short timed steps, each linked to the next one
+        n = 1100
+        names = [f"q{i:04d}" for i in range(n)]
     grid = rng.random() < (0.45 if pid == "C02" else 0.3)
     if grid:
         period = GRID * rng.choice([1, 1, 2, 4])
@@ -94,6 +99,8 @@ def gen_case(rng: random.Random, pid: str, uid: str) -> dict:
     p_mf = {"C01": 0.4}.get(pid, 0.25)
     p_default = {"C04": 0.5, "C13": 0.15, "C01": 0.45}.get(pid, 0.35)
     chain = rng.random() < (0.6 if pid in ("C02", "C13") else 0.3)
+    if long_chain:
+        chain, p_timed = True, 1.0
 
     def gen_dur():
         r = rng.random()
@@ -208,6 +215,8 @@ def gen_case(rng: random.Random, pid: str, uid: str) -> dict:
             else:
                 acts.append(None)
         script[nm] = acts
+    if long_chain:
+        script = {nm: (acts[:3] if i_ % 50 == 0 else []) for i_, (nm, acts) in enumerate(script.items())}
     marathon = rng.random() < 0.004 and not auto
     if (marathon or rng.random() < 0.03) and len(names) >= 2:
         # a state that hands over with next_state_now() EVERY time it runs, for as long as the case runs (the scripts repeat)
@@ -250,7 +259,7 @@ def gen_case(rng: random.Random, pid: str, uid: str) -> dict:
             script[nm] = [(["next", nm, False] if rng.random() < 0.3 else a) for a in script[nm]]
     verbose = rng.choice([None, None, True, False])
     ds_state = rng.choice([None, "auto", "auto", "teleop", "disabled"]) if auto else None
-    return {"uid": uid, "pid": pid, "marathon": marathon, "backlog": backlog, "verbose": verbose, "ds": ds_state, "auto": auto, "grid": grid, "period": period, "classes": classes,
+    return {"uid": uid, "pid": pid, "marathon": marathon, "backlog": backlog, "long_chain": long_chain, "verbose": verbose, "ds": ds_state, "auto": auto, "grid": grid, "period": period, "classes": classes,
             "final": classes[-1]["name"], "script": script, "pre_nt": pre_nt, "sibling": (not auto) and rng.random() < 0.25,
             "instantiate_bases": len(classes) > 1 and rng.random() < 0.5,
             "always_disable": always_disable,
@@ -915,6 +924,8 @@ class Driver:
         if case.get("marathon"):
             total = 3000            # thousands of iterations of one continuously engaged run
             self.ev("marathon-run")
+        if case.get("long_chain"):
+            self.ev("machine-of-1100-chained-states")
         if case.get("ultra"):
             total = 100000          # one object lives through 100 000 control loops (33 minutes at 50 Hz) of mixed use
             self.ev("object-used-for-100000-iterations")
@@ -1446,9 +1457,33 @@ def classify(pid, v):
     return f"{pid}/{v['first']}"
 
 
+class _NotBuilt:
+    """Every generated definition is a valid one (malformed ones are C12's): a machine that cannot even be built or set up
+    breaks whatever is promised about its behaviour."""
+    trace = None
+
+    def __init__(self, case, exc):
+        import traceback
+        tb = traceback.extract_tb(exc.__traceback__)
+        where = f"{tb[-1].filename.split('/')[-1]}:{tb[-1].name}" if tb else "?"
+        n = sum(len(c["states"]) for c in case["classes"])
+        self.events = {"machine-could-not-be-built": 1}
+        self.eff = effective_shape(case)
+        self.violation = {"kinds": ["construction-raised"], "first": "construction-raised", "op": None, "time_us": 0,
+                          "detail": f"building / setting up a valid machine of {n} states raised {type(exc).__name__}: {str(exc)[:200]} at {where}"}
+
+    def nontrivial(self):
+        return False
+
+
 def _run_one(case, acc, ops=None, verbose=False):
     D = AutoDriver if case["auto"] else Driver
-    d = D(case, acc, verbose)
+    try:
+        d = D(case, acc, verbose)
+    except Exception as exc:  # noqa
+        if case.get("ds"):
+            _set_ds("disabled")
+        return _NotBuilt(case, exc), (ops or [])
     try:
         if ops is None:
             rng = random.Random(case["hseed"])
@@ -1463,7 +1498,6 @@ def _run_one(case, acc, ops=None, verbose=False):
 def run_shard(spec):
     import hal.simulation as hs
     hs.pauseTiming()
-    sys.setrecursionlimit(6000)        # backlog cases nest 120 transitions deep; generated state functions add two frames per level
     pid = spec["pid"]
     rng = random.Random(spec["seed"])
     acc = Acc()
@@ -1521,7 +1555,6 @@ def run_shard(spec):
 def replay(pid, case):
     import hal.simulation as hs
     hs.pauseTiming()
-    sys.setrecursionlimit(6000)
     _enable_line_budget()
     acc = Acc()
     case = dict(case)
